@@ -22,7 +22,7 @@ from props.c06_fixed import (
     unpack_tolerant,
     _conf, _pdu_common, _repack, _pack_fails, _enum, spec_pdu, spec_hdr, with_crc, fss, rand_conf, all_confs, fss_pool,
     fss_val, fss_bad, rand_val, vmax, bad_conf_cases, CONF_KEYS, COND_MEMBERS, U32, U64,
-    _built, _isolated, _eq_op, contrast_conf,
+    _built, _isolated, _eq_op, contrast_conf, detached,
 )
 from props.c08 import (
     _build, _fsresp, _fsresp_fields, _name, rand_utf8, held_concrete, STATUS_NAT, SNP, UTF8_GOOD, UTF8_BAD,
@@ -81,10 +81,13 @@ def _check_roundtrip(p, cls, fields, raw: bytes, f, norm: Callable = lambda x: x
     _need(bytes(q2.pack()) == raw, "octets after the declared PDU change the re-packed octets")
 
 
-def _decoded(p, fields, raw: bytes):
+def _decoded(p, fields, raw: bytes, cls=None):
     f = fields(p)
     _isolated(p, fields, f)
     _need(f["packet_len"] <= len(raw), "decoded PDU is longer than the buffer it was decoded from")
+    if cls is not None:
+        # decoded out of a receive buffer that is reused afterwards (core.decode_detached)
+        detached(cls, raw, fields, p)
     r = _repack(p)
     if r is not None:
         _need(len(unhx(r)) == f["packet_len"], "decoded PDU: len(pack()) != packet_len")
@@ -149,7 +152,7 @@ def op_eof_pack_fails(a):
 
 def op_eof_unpack(a):
     raw = unhx(a["raw"])
-    return _decoded(unpack_tolerant(EofPdu, raw), _eof_fields, raw)
+    return _decoded(unpack_tolerant(EofPdu, raw), _eof_fields, raw, EofPdu)
 
 
 def _set_attr(name, conv=lambda v: v):
@@ -232,7 +235,7 @@ def op_fin_pack(a):
 
 def op_fin_unpack(a):
     raw = unhx(a["raw"])
-    return _decoded(unpack_tolerant(FinishedPdu, raw), _fin_fields, raw)
+    return _decoded(unpack_tolerant(FinishedPdu, raw), _fin_fields, raw, FinishedPdu)
 
 
 FIN_SETTERS = {"fault": _set_attr("fault_location", _fault), "cond": _set_attr("condition_code", lambda v: _enum(ConditionCode, v)),
@@ -326,7 +329,7 @@ def op_md_pack_fails(a):
 
 def op_md_unpack(a):
     raw = unhx(a["raw"])
-    return _decoded(unpack_tolerant(MetadataPdu, raw), _md_fields, raw)
+    return _decoded(unpack_tolerant(MetadataPdu, raw), _md_fields, raw, MetadataPdu)
 
 
 MD_SETTERS = {"options": _set_attr("options", _options), "src": _set_attr("source_file_name", _opt_name),
